@@ -48,7 +48,8 @@ theorem ident_not_writing : Kind.kIDENTIFIER ∉ writingKinds := by decide
 theorem ident_not_call : Kind.kIDENTIFIER ∉ callKinds := by decide
 
 mutual
-theorem writes_sub_reads {cfg : Cfg} (hx : cfg.WritesExact) (hd : cfg.callAddsDepends = true) {env : Env} (hs : EnvSub env) {s : Sym} :
+theorem writes_sub_reads {cfg : Cfg} (hx : cfg.WritesExact) (hd : cfg.callAddsDepends = true ∧ cfg.writeCallResolvesDot = cfg.readCallResolvesDot)
+    {env : Env} (hs : EnvSub env) {s : Sym} :
     ∀ (e : Expr) (rnd : Bool), extFree cfg e = true → s ∈ collectWrites cfg env e → s ∈ collectReads cfg env rnd e
   | .node k x subs, rnd, hf, h => by
     unfold extFree at hf
@@ -87,16 +88,17 @@ theorem writes_sub_reads {cfg : Cfg} (hx : cfg.WritesExact) (hd : cfg.callAddsDe
           | nil => cases h
           | cons f args =>
             simp only at h
-            cases hfind : env.find (getSymbol f) with
+            cases hfind : env.find (calleeSym cfg.writeCallResolvesDot f) with
             | none => rw [hfind] at h; cases h
             | some fi =>
               rw [hfind] at h
+              have hfind' : env.find (calleeSym cfg.readCallResolvesDot f) = some fi := hd.2 ▸ hfind
               simp only [List.mem_append] at h
               rcases h with h | h
               · by_cases hac : cfg.callAddsChanges = true
                 · rw [if_pos hac] at h
                   right
-                  simp only [hne, if_false, hrc, if_true, hfind, hd]
+                  simp only [hne, if_false, hrc, if_true, hfind', hd.1]
                   exact hs _ _ hfind s h
                 · rw [if_neg hac] at h; cases h
               · by_cases har : cfg.callAddsRefArgs = true
@@ -106,7 +108,8 @@ theorem writes_sub_reads {cfg : Cfg} (hx : cfg.WritesExact) (hd : cfg.callAddsDe
                   exact Or.inr (refArgs_sub_reads _ _ _ h)
                 · rw [if_neg har] at h; cases h
         · rw [if_neg hc] at h; cases h
-theorem writesL_sub_reads {cfg : Cfg} (hx : cfg.WritesExact) (hd : cfg.callAddsDepends = true) {env : Env} (hs : EnvSub env) {s : Sym} :
+theorem writesL_sub_reads {cfg : Cfg} (hx : cfg.WritesExact) (hd : cfg.callAddsDepends = true ∧ cfg.writeCallResolvesDot = cfg.readCallResolvesDot)
+    {env : Env} (hs : EnvSub env) {s : Sym} :
     ∀ (es : List Expr) (rnd : Bool), extFreeL cfg es = true → s ∈ collectWritesL cfg env es → s ∈ collectReadsL cfg env rnd es
   | [], _, _, h => by simp [collectWritesL] at h
   | e :: es, rnd, hf, h => by
@@ -215,7 +218,7 @@ theorem mem_erase_left {xs drop : List Sym} {s : Sym} (h : s ∈ erase xs drop) 
 
 /-- the erase loops of visitFunction treat `changes` and `depends` alike -/
 def Cfg.EraseAlike (c : Cfg) : Prop :=
-  c.collectsDepends = true ∧ c.callAddsDepends = true ∧
+  c.collectsDepends = true ∧ (c.callAddsDepends = true ∧ c.writeCallResolvesDot = c.readCallResolvesDot) ∧
   (c.erasesLocalDepends = true → c.erasesLocalChanges = true) ∧ (c.erasesParamDepends = true → c.erasesParamChanges = true)
 
 instance (c : Cfg) : Decidable c.EraseAlike := by unfold Cfg.EraseAlike; infer_instance
